@@ -56,7 +56,8 @@ CLAIMS = {
           'transport loss ends every namespace; ConnectionRefusedError '
           'table. NOT decided: sid freshness (engine.io), threaded races '
           '(C20), delivery after disconnect beyond the room structure.'
-          ' Also: a ConnectionRefusedError raised by any invocation of the connect handler (legacy-signature retry included) is contained and handled as a refusal; a refused duplicate CONNECT touches no state keyed by the client.',
+          ' Also: a ConnectionRefusedError raised by any invocation of the connect handler (legacy-signature retry included) is contained and handled as a refusal; a refused duplicate CONNECT touches no state keyed by the client.'
+          ' Also: a connect handler that failed with another exception has not accepted the client; can_disconnect answers through is_connected; the release after the disconnect handler is local (ignore_queue=True).',
   'note': TRUST + 'asyncio tasks interleave only at awaits that can '
           'suspend (computed as a fixed point over the call graph; abstract '
           'coroutines count as suspending).',
@@ -76,7 +77,8 @@ CLAIMS = {
           'namespace/id/transport and payload packing; engine.io built with '
           'async_handlers=False. Exactly-once over whole sequences and '
           'cross-client ACK isolation follow from these per-path facts and '
-          'are not explored as histories.',
+          'are not explored as histories.'
+          ' Also: the gate and both sid resolvers read one admission table (rooms[ns][None]) and no second index.',
   'note': TRUST + 'engine.io delivers one client\'s frames in order.',
   'technique': 'static analysis: decision table over packet types and id '
                'domain by symbolic path enumeration, guard dominance, '
@@ -94,7 +96,8 @@ CLAIMS = {
           'that recipient; _handle_ack resolves the sid from (own '
           'transport, packet namespace); call() result table over '
           'len in {0,1,2+} and TimeoutError exactly on wait failure. '
-          'Histories with reconnects are covered only through C11 cleanup.',
+          'Histories with reconnects are covered only through C11 cleanup.'
+          ' Also: at most one callback invocation per ACK on the continuation where the callback raised.',
   'note': TRUST + 'wire ids cannot be identical to an object() sentinel.',
   'technique': 'static analysis: typestate/order on enumerated paths, '
                'container provenance, decision table',
@@ -126,7 +129,8 @@ CLAIMS = {
           'namespaces; emptied rooms/namespaces/pending lists are '
           'collected; background-task references are discarded. Memory '
           'growth as a number is NOT decided.'
-          ' Also: room membership only with proof that the sid is connected and nothing created before the failing lookup (F11, fixed); statements indexing client-controlled data in the release sequence count as raisers.',
+          ' Also: room membership only with proof that the sid is connected and nothing created before the failing lookup (F11, fixed); statements indexing client-controlled data in the release sequence count as raisers.'
+          ' Also: asyncio: a CancelledError of an application coroutine is contained where it is awaited (the transport-loss loop catches Exception only).',
   'note': TRUST + 'raisers = calls that reach application code over the '
           'call graph.',
   'technique': 'static analysis: must-release pairing over enumerated '
@@ -145,7 +149,8 @@ CLAIMS = {
           'dispatch and its error is not caught in the library; the '
           'connected gate; every answer goes to the sender\'s transport. '
           'Global non-interference over all server states is NOT decided.'
-          ' Also: the codec keeps no state outside the packet object (no shared decoder, no globals, no class-attribute writes); the connected-gate itself (is_connected table) is shared from C04.',
+          ' Also: the codec keeps no state outside the packet object (no shared decoder, no globals, no class-attribute writes); the connected-gate itself (is_connected table) is shared from C04.'
+          ' Also: a dict with a truthy _placeholder and a num never survives reconstruction as data (it becomes the attachment or the packet fails).',
   'note': TRUST + 'engine.io contains exceptions of the message callback.',
   'technique': 'static analysis: taint-to-sink scan, guard dominance on '
                'enumerated paths, key provenance',
@@ -176,7 +181,8 @@ CLAIMS = {
           'managers today, so both sites are reported as known findings '
           'F7a/F7b; a lock that covers only one of the two is reported as a '
           'new violation. This is a necessary condition for the property.'
-          ' Also: whoever marks the client runs the handler on every path; the handler and the mark are dominated by a connected-test made in the same function.',
+          ' Also: whoever marks the client runs the handler on every path; the handler and the mark are dominated by a connected-test made in the same function.'
+          ' Also: can_disconnect answers through is_connected in every manager (shared C04.R10).',
   'note': TRUST + 'a repair relying on one GIL-atomic operation is not '
           'recognised.',
   'technique': 'static analysis: lockset (held-lock) check on enumerated '
@@ -195,7 +201,8 @@ CLAIMS = {
           'owning functions, once per listed namespace; a failed wait '
           'disconnects before raising and connected is set only when all '
           'namespaces were accepted. Whole histories are NOT explored.'
-          ' Also: a packet handler that lowers `connected` closes the transport on the same path (F12, fixed); disconnect() always closes the transport.',
+          ' Also: a packet handler that lowers `connected` closes the transport on the same path (F12, fixed); disconnect() always closes the transport.'
+          ' Also: the default namespace list is the duplicate-free union of the two handler registries.',
   'note': TRUST,
   'technique': 'static analysis: must-update / guard dominance on '
                'enumerated paths, ownership',
@@ -213,7 +220,8 @@ CLAIMS = {
           'timeout depends on exactly the four parameters and random(), is '
           'doubled k-1 times and compared with the cap; shutdown aborts '
           'then joins. The back-off law and jitter bounds are NOT decided.'
-          ' Also: the single-effort guard _reconnect_task has three writers only; it is released on every exit of an effort (F13: known finding on the give-up and abort exits).',
+          ' Also: the single-effort guard _reconnect_task has three writers only; it is released on every exit of an effort (F13: known finding on the give-up and abort exits).'
+          ' Also: the replayed connection_* attributes are written by connect() only.',
   'note': TRUST + 'engine.io clears eio.state before notifying an '
           'intentional close.',
   'technique': 'static analysis: path enumeration with bounded unrolling, '
@@ -262,7 +270,8 @@ CLAIMS = {
           'incoming id), engine.io is built with async_handlers=False, the '
           'msgpack dict written by _to_dict matches what decode reads, and '
           'no resolved in-package call binds a parameter-named argument to '
-          'a different parameter (swapped arguments; positive control).',
+          'a different parameter (swapped arguments; positive control).'
+          ' Also: with a binary packet pending every path hands the frame to the pending packet (no frame is dropped on the way).',
   'note': TRUST + 'engine.io delivers frames in order.',
   'technique': 'static analysis: decision tables, call-binding and schema '
                'agreement over the ast',
@@ -298,7 +307,8 @@ CLAIMS = {
           'stays local, enter/leave are local xor publish; remote room '
           'operations are guarded by is_connected; callback token shape '
           '(room, namespace, id), arity test and relay binding.'
-          ' Also: every path of a well-formed remote message reaches its handler exactly once whatever else the listener tests; the host id compared by the echo filter is drawn afresh per manager object.',
+          ' Also: every path of a well-formed remote message reaches its handler exactly once whatever else the listener tests; the host id compared by the echo filter is drawn afresh per manager object.'
+          ' Also: the disconnect on the owning host ends with a local release (shared C04.R2).',
   'note': TRUST + 'the backend channel is FIFO and reaches every host.',
   'technique': 'static analysis: writer/reader schema agreement, decision '
                'table over message method x origin, pairing/order on paths',
@@ -312,7 +322,8 @@ CLAIMS = {
           'failed pickle; unknown methods are ignored; own messages are not '
           're-applied and foreign acknowledgements complete nothing; the '
           'Redis (thorough: Kombu, AioPika) listen loops stay in the loop '
-          'with a capped back-off and _publish makes at most two attempts.',
+          'with a capped back-off and _publish makes at most two attempts.'
+          ' Also: the handlers that keep the listener and the listen/publish retry loops alive read no possibly-unbound name (definite assignment).',
   'note': TRUST + 'logger calls do not raise.',
   'technique': 'static analysis: exceptional-exit enumeration over '
                'structured paths (every call a raiser)',
@@ -331,7 +342,8 @@ CLAIMS = {
           'parameters and returns its result; the instrumentation emits '
           'only on the admin namespace. Timing and failures inside the '
           'instrumentation are NOT decided.'
-          ' Also: tables the instrumentation hangs on the server are filled before the original runs (the deleting wrapper arm cannot fail in front of the application).',
+          ' Also: tables the instrumentation hangs on the server are filled before the original runs (the deleting wrapper arm cannot fail in front of the application).'
+          " Also: the server's connect path contains refusals and treats a failed handler (raising predicate) as not accepted (shared C04.R9).",
   'note': TRUST + 'Python equality decides "equals the credentials".',
   'technique': 'static analysis: decision table, guard dominance, wrapper '
                'forwarding check',
